@@ -312,34 +312,34 @@ func ruleVoteRequests() *Rule {
 			if root == nil {
 				return missing(id, "(*Raft).sendRequestVote")
 			}
-			sp := NewSpace(BoolAtom("peerIsVoter", "r.configuration.IsVoter[p0]"), BoolAtom("selfIsVoter", "r.configuration.IsVoter[r.id]"))
+			latch := GhostAtom("bothVotersAtLastUnlock", "no", "yes")
+			sp := NewSpace(BoolAtom("peerIsVoter", "r.configuration.IsVoter[p0]"), BoolAtom("selfIsVoter", "r.configuration.IsVoter[r.id]"), latch)
 			a := NewAnalysis(p, sp)
 			a.Hook = func(a *Analysis, f *Frame, in ssa.Instruction, st State) State {
-				if c, ok := in.(*ssa.Call); ok && f.Parent == nil {
-					if op, recv := isMutexOp(c.Common()); op == "Mutex.Unlock" && isNodeMutex(recv) {
-						sends := false
-						after := false
-						for _, x := range in.Block().Instrs {
-							if x == in {
-								after = true
-							} else if after {
-								if iface, m, _ := invokeOf(x); iface == "Transport" && m == "SendRequestVote" {
-									sends = true
-								}
-							}
-						}
-						if sends {
-							a.Observe("unlock before Transport.SendRequestVote in "+chainKey(f), f, in, st)
-						}
+				if ci, ok := in.(ssa.CallInstruction); ok {
+					if _, isDefer := in.(*ssa.Defer); isDefer && !a.AtRunDefers {
+						return st
 					}
+					if op, recv := isMutexOp(ci.Common()); op == "Mutex.Unlock" && isNodeMutex(recv) {
+						// remember, per concrete state, whether both were voters when the mutex was released
+						return sp.Map(st, 2, func(pt, old int) uint32 {
+							if sp.Val(pt, 0) == 1 && sp.Val(pt, 1) == 1 {
+								return 1 << 1
+							}
+							return 1 << 0
+						})
+					}
+				}
+				if iface, m, _ := invokeOf(in); iface == "Transport" && m == "SendRequestVote" {
+					a.Observe("call Transport.SendRequestVote in "+chainKey(f), f, in, st)
 				}
 				return st
 			}
-			a.Run(root, nil)
-			out := evalObs(a, id, a.SortedObs(), func(_ *Observation, pt int) bool { return sp.Val(pt, 0) == 1 && sp.Val(pt, 1) == 1 }, nil,
-				"vote requests go only from a voter to a voter")
+			a.RunFrame(NewRootFrame(root), sp.Filter(sp.Top(), 2, 1))
+			out := evalObs(a, id, a.SortedObs(), func(_ *Observation, pt int) bool { return sp.Val(pt, 2) == 1 }, []int{2},
+				"a vote request is sent only if, when the mutex was released for it, both the peer and this node were voters")
 			if len(out) == 0 {
-				out = append(out, missing(id, "unlock window containing Transport.SendRequestVote in (*Raft).sendRequestVote")...)
+				out = append(out, missing(id, "Transport.SendRequestVote reachable from (*Raft).sendRequestVote")...)
 			}
 			// spawner
 			spawner := p.Func("(*Raft).sendRequestVoteToPeers")
